@@ -279,14 +279,30 @@ func (vc *VC) applyContract(st *State, call *ast.CallExpr, c *Contract, callee *
 	oldSt := st.clone()
 	// closures handed to the callee are verified as callbacks (before the callee's effects are applied,
 	// under a havocked heap: the callee may run them at any point)
+	cbGhost := map[string]bool{}
 	for _, cb := range c.Callbacks {
 		if fv := names[cb.Param]; fv != nil && fv.Fn != nil && fv.Fn.Lit != nil {
 			if vc.contract != nil && vc.contract.NoCallbacks {
 				vc.depsUsed["closure body passed to "+shortKey(c)+" not verified (nocallbacks)"] = true
+				// what the closure does to ghost state is unknown
+				for _, comp := range sortedKeys(vc.compSort) {
+					if strings.HasPrefix(comp, "ghost:") {
+						cbGhost[comp] = true
+					}
+				}
 				continue
 			}
-			vc.checkCallback(st, fv.Fn, cb, pi, c)
+			for _, comp := range vc.checkCallback(st, fv.Fn, cb, pi, c) {
+				cbGhost[comp] = true
+			}
 		}
+	}
+	// ghost components the closure changes (through the contracts it calls) are arbitrary after the call: the state
+	// the closure ends in is not carried over
+	for _, comp := range sortedKeys(cbGhost) {
+		n := vc.fresh("H_"+comp, vc.compSort[comp])
+		st.heap[comp] = n
+		vc.heapSymWF(n, comp, vc.compSort[comp], st.alloc)
 	}
 	// frame
 	if c.HasMod {
@@ -1089,9 +1105,9 @@ func (vc *VC) finishObligations() {
 
 // checkCallback verifies the body of a closure literal passed as a callback: heap arbitrary, parameters arbitrary
 // values satisfying the declared condition; the resulting states are discarded (only obligations are kept).
-func (vc *VC) checkCallback(st *State, fn *FuncVal, cb CallbackSpec, pi *PkgInfo, c *Contract) {
+func (vc *VC) checkCallback(st *State, fn *FuncVal, cb CallbackSpec, pi *PkgInfo, c *Contract) (ghostChanged []string) {
 	if vc.specMode > 0 {
-		return
+		return nil
 	}
 	work := st.clone()
 	if !cb.Immediate {
@@ -1107,7 +1123,7 @@ func (vc *VC) checkCallback(st *State, fn *FuncVal, cb CallbackSpec, pi *PkgInfo
 	info := fn.Pkg.P.TypesInfo
 	sig, _ := info.TypeOf(fn.Lit).(*types.Signature)
 	if sig == nil {
-		return
+		return nil
 	}
 	var args []*Value
 	names := map[string]*Value{}
@@ -1122,6 +1138,19 @@ func (vc *VC) checkCallback(st *State, fn *FuncVal, cb CallbackSpec, pi *PkgInfo
 	}
 	savedGuards := vc.guards
 	vc.guards = nil
+	before := map[string]string{}
+	for comp, t := range work.heap {
+		before[comp] = t
+	}
 	vc.inlineCall(work, fn.Lit, fn.Pkg, fn.Lit.Type, fn.Lit.Body, nil, sig, nil, args, nil)
 	vc.guards = savedGuards
+	for comp, t := range work.heap {
+		if strings.HasPrefix(comp, "ghost:") && before[comp] != t {
+			if _, had := before[comp]; !had && t == vc.initialSym(work, comp) {
+				continue // only read
+			}
+			ghostChanged = append(ghostChanged, comp)
+		}
+	}
+	return ghostChanged
 }
